@@ -1,5 +1,5 @@
 (* C01 — serialized values inhabit the generated TypeScript type.  Statements only. *)
-From TsRs Require Import Base.Str Base.Outcome Gen.Tables Model.Case Model.TsAst Model.Rust Model.Docs Model.Gen Spec.TsFree Spec.TsSem Spec.Serde Proofs.Sem_lib_proofs.
+From TsRs Require Import Base.Str Base.Outcome Gen.Tables Model.Case Model.TsAst Model.Rust Model.Docs Model.Gen Spec.TsFree Spec.TsSem Spec.Serde Proofs.Sem_lib_proofs Proofs.Sem_base_proofs Proofs.Sem_derive_proofs.
 From Coq Require Import List.
 Import ListNotations.
 
@@ -28,3 +28,57 @@ Example C01_library_nonvacuous :
 Proof. split; [reflexivity|]. eexists; eexists. repeat split; vm_compute; reflexivity. Qed.
 
 Print Assumptions C01_library_layer.
+
+(* Derive layer.  For every environment of derived definitions inside the decidable `plain`
+   fragment (plain_envb: non-generic structs and enums of every shape — named, tuple, newtype, unit —
+   with rename / rename_all / rename_all_fields / skip / struct-level tag, all four enum
+   representations, fields of any library type expression over references to other definitions,
+   recursion included; no inline / flatten / optional / type / as overrides, which the corpus
+   correspondence covers instead), for EVERY type expression, EVERY value and every serde recursion
+   depth: what serde_json emits is, from some evaluation depth on, a member of the TypeScript type
+   TS::name() reports, read against the declarations ts-rs generates for that environment. *)
+Theorem C01_derive_layer :
+  forall is_upper is_alnum is_numeric R gf,
+    plain_envb is_upper is_alnum is_numeric R gf = true ->
+    forall n t v j a,
+      mono_ty t = true -> ser is_upper R n t v = Some j -> name_of R t = Ok a ->
+      exists f0, forall f, (f0 <= f)%nat -> memberb (env_of is_upper is_alnum is_numeric R gf) f a j = true.
+Proof. exact derive_layer_member. Qed.
+
+Module C01_example.
+Definition fld (n : String.string) (t : rty) : field :=
+  {| f_ident := lit n; f_ty := t; f_serde_ty := t; f_rename := None; f_skip := false; f_inline := false;
+     f_flatten := false; f_optional := NotOptional; f_type := None; f_docs := []; f_skip_none := false |}.
+Definition cat (n : String.string) (ra : option rule) (tag : option str) : cattrs :=
+  {| c_ident := lit n; c_rename := None; c_rename_all := ra; c_tag := tag; c_optional_fields := NotOptional;
+     c_docs := []; c_export_to := None; c_type := None; c_as := None; c_params := [] |}.
+Definition var (n : String.string) (s : shape) : variant :=
+  {| v_ident := lit n; v_shape := s; v_rename := None; v_rename_all := None; v_skip := false;
+     v_untagged := false; v_type := None; v_as := None |}.
+Definition i32 := RLeaf (LInt false (-2147483648)%Z 2147483647%Z).
+(* struct Node { node_id: i32, kids: Vec<Node>, shape: Option<Shape> }  with rename_all = camelCase
+   #[serde(tag = "kind")] enum Shape { Dot, Box { w: i32, inner: Box<Node> } } *)
+Definition R : env :=
+  [(lit "Node", DStruct (cat "Node" (Some Camel) None)
+      (SNamed [fld "node_id" i32; fld "kids" (RVec (RNamed (lit "Node") [])); fld "shape" (ROption (RNamed (lit "Shape") []))]));
+   (lit "Shape", DEnum (cat "Shape" None None) (Internal (lit "kind")) None
+      [var "Dot" SUnit; var "Box" (SNamed [fld "w" i32; fld "inner" (RWrap (RNamed (lit "Node") []))])])].
+Definition leafv (i : Z) (sh : value) := VStruct [VInt i; VSeq []; sh].
+Definition v : value :=
+  VStruct [VInt 1; VSeq [leafv 2 VNone; leafv 3 (VSome (VVariant 0 []))];
+           VSome (VVariant 1 [VInt 7; leafv 4 VNone])].
+Definition up := is_ascii_upper.
+Definition al (c : char) := is_ascii_upper c || is_ascii_lower c || is_ascii_digit c.
+End C01_example.
+
+(* the hypotheses are inhabited: a recursive struct and an internally tagged enum that refer to each
+   other, a nested value; the model's JSON text is what serde_json prints for it *)
+Example C01_derive_nonvacuous :
+  let t := RNamed (lit "Node"%string) [] in
+  plain_envb C01_example.up C01_example.al is_ascii_digit C01_example.R 10 = true /\ mono_ty t = true /\
+  exists j a, ser C01_example.up C01_example.R 10 t C01_example.v = Some j /\ name_of C01_example.R t = Ok a /\
+    print a = lit "Node"%string /\
+    json_text j = lit "{""nodeId"":1,""kids"":[{""nodeId"":2,""kids"":[],""shape"":null},{""nodeId"":3,""kids"":[],""shape"":{""kind"":""Dot""}}],""shape"":{""kind"":""Box"",""w"":7,""inner"":{""nodeId"":4,""kids"":[],""shape"":null}}}"%string.
+Proof. split; [vm_compute; reflexivity|]. split; [reflexivity|]. eexists; eexists. repeat split; vm_compute; reflexivity. Qed.
+
+Print Assumptions C01_derive_layer.
